@@ -11,7 +11,7 @@ from checks import common_rows as R
 from optimum.quanto import AbsmaxOptimizer, MaxOptimizer, absmax_scale, quantize_weight
 from optimum.quanto.tensor.quantizers import AffineQuantizer, SymmetricQuantizer
 
-ENTRIES8 = ["qw", "qw", "absmax_opt", "absmax_scale"]
+ENTRIES8 = ["qw", "qw", "absmax_opt", "absmax_scale", "calibration"]
 ENTRIESLOW = ["qw", "qw", "max_opt"]
 PERTURB = ["replace", "scale", "permute", "one", "none"]
 
@@ -31,6 +31,8 @@ def cases(draw):
                     entry = "absmax_opt"
             if entry != "qw":
                 c["axis"] = None
+        if entry == "calibration":
+            c["axis"] = None  # activations are per-tensor
     c["entry"] = entry
     c["target"] = draw(st.integers(0, 63))
     c["perturb"] = draw(st.sampled_from(PERTURB))
@@ -53,6 +55,20 @@ def quantize_via(entry, x, qtype, axis, gs):
     if entry == "max_opt":
         s, z = MaxOptimizer()(x, qtype.bits, axis, gs)
         return s, z, AffineQuantizer.apply(x, qtype, axis, gs, s, z)
+    if entry == "calibration":
+        # the scale a module with quantized activations gets for this batch from a real Calibration context (first batch)
+        import torch.nn as nn
+
+        from optimum.quanto import Calibration
+        from optimum.quanto.nn import QLinear
+
+        feats = x.shape[-1] if x.ndim >= 2 else x.numel()
+        batch = (x if x.ndim >= 2 else x.reshape(1, -1)).detach()
+        m = QLinear.from_module(nn.Linear(feats, 2, bias=False).to(x.dtype), weights=O.QTALL["qint8"], activations=qtype)
+        with torch.no_grad(), Calibration(streamline=False):
+            m(batch)
+        s = m.input_scale.detach().clone().reshape(())
+        return s, None, SymmetricQuantizer.apply(x, qtype, None, s)
     raise ValueError(entry)
 
 
@@ -144,7 +160,7 @@ def analyse(case, x, tag, out):
     else:
         G = O.grid(qtype)
         gmax = float(G[-1])
-        qmax = float(torch.finfo(qtype.dtype).max if qtype.is_floating_point else 127) if case["entry"] == "absmax_scale" else 127.0
+        qmax = float(torch.finfo(qtype.dtype).max if qtype.is_floating_point else 127) if case["entry"] in ("absmax_scale", "calibration") else 127.0
         limit = amax / qmax * (1 + 2 * u) + eta
         bad = nz & (s_g > limit) & (amax / qmax >= eta)
         if bool(bad.any()):
